@@ -26,43 +26,10 @@ ROOTS = ["agdb::db::DbImpl", FS, "agdb::storage::memory_storage::MemoryStorage",
 ALLOWED_NONFREEZE = {(FS, "lock"): "Mutex<()> serialising the shared file cursor"}
 
 
-def run(ctx):
+def cursor_rule(ctx):
+    """R23b: the shared OS cursor of FileStorage::file is only used under the guard of FileStorage::lock (also
+    evaluated by C06: the file-only variant must not diverge from the others under concurrent readers)."""
     fa = ctx.facts
-    # ---- R23a
-    MODS = ("agdb::db", "agdb::graph", "agdb::collections", "agdb::storage", "agdb::graph_search", "agdb::transaction",
-            "agdb::command")
-    seen = [p for p in fa.adts if p.startswith(MODS) and "test_utilities" not in p]
-    leaves = []
-    for p in seen:
-        for v in fa.adts[p]["variants"]:
-            for f in v["fields"]:
-                if f["freeze"]:
-                    continue
-                ty = f["ty"]
-                if re.fullmatch(r"[A-Za-z_][A-Za-z0-9_]*", ty):
-                    continue      # a bare type parameter: decided at the instantiating type
-                local = [a for a in f["adts"] if a in fa.adts]
-                local_nonfreeze = [a for a in local if any(not ff["freeze"] for vv in fa.adts[a]["variants"] for ff in vv["fields"])]
-                if not local_nonfreeze:
-                    leaves.append((p, f["name"], ty))
-    for r in ROOTS:
-        ctx.ob("R23a", "anchor:" + r, r in fa.adts, "type found" if r in fa.adts else "type `%s` not found" % r,
-               key="%s|R23a|missing-anchor|%s" % (ctx.pid, r), nontrivial=False)
-    for p, name, ty in sorted(set(leaves)):
-        ok = (p, name) in ALLOWED_NONFREEZE
-        ctx.ob("R23a", "%s.%s" % (p, name), ok,
-               "allowed interior mutability: " + ALLOWED_NONFREEZE.get((p, name), "") if ok else
-               "field `%s.%s: %s` introduces interior mutability into a database data structure: `&self` queries on "
-               "a shared database may now race" % (p, name, ty))
-    ctx.ob("R23a", "inventory", {(p, n) for p, n, t in leaves} >= set(ALLOWED_NONFREEZE),
-           "%d ADTs inspected; non-Freeze leaves: %s" % (len(seen), sorted({(p.split("::")[-1], n) for p, n, t in leaves})),
-           nontrivial=False)
-    ctx.floor("R23a", "database ADTs inspected for interior mutability", len(seen), 40)
-    unsafe = [(p, h["unsafe_blocks"]) for p, h in fa.hir.items() if h.get("unsafe_blocks") and
-              fa.body(p) is not None and fa.body(p).crate == "agdb" and "test_utilities" not in p]
-    ctx.ob("R23a", "no-unsafe-in-agdb", not unsafe, "crate agdb has no user-written unsafe block" if not unsafe else
-           "unsafe blocks in crate agdb: %s" % unsafe[:5])
-
     # ---- R23b
     n_uses = 0
     for b in fa.bodies.values():
@@ -111,6 +78,47 @@ def run(ctx):
         of = cfg.call_blocks(b, [FS + "::open_file"])
         ctx.ob("R23b", "read:fallback-handle", bool(of), "contended reads open a private handle (open_file)" if of else
                "FileStorage::read no longer falls back to a private file handle when the lock is taken", b.where)
+
+
+
+def run(ctx):
+    fa = ctx.facts
+    # ---- R23a
+    MODS = ("agdb::db", "agdb::graph", "agdb::collections", "agdb::storage", "agdb::graph_search", "agdb::transaction",
+            "agdb::command")
+    seen = [p for p in fa.adts if p.startswith(MODS) and "test_utilities" not in p]
+    leaves = []
+    for p in seen:
+        for v in fa.adts[p]["variants"]:
+            for f in v["fields"]:
+                if f["freeze"]:
+                    continue
+                ty = f["ty"]
+                if re.fullmatch(r"[A-Za-z_][A-Za-z0-9_]*", ty):
+                    continue      # a bare type parameter: decided at the instantiating type
+                local = [a for a in f["adts"] if a in fa.adts]
+                local_nonfreeze = [a for a in local if any(not ff["freeze"] for vv in fa.adts[a]["variants"] for ff in vv["fields"])]
+                if not local_nonfreeze:
+                    leaves.append((p, f["name"], ty))
+    for r in ROOTS:
+        ctx.ob("R23a", "anchor:" + r, r in fa.adts, "type found" if r in fa.adts else "type `%s` not found" % r,
+               key="%s|R23a|missing-anchor|%s" % (ctx.pid, r), nontrivial=False)
+    for p, name, ty in sorted(set(leaves)):
+        ok = (p, name) in ALLOWED_NONFREEZE
+        ctx.ob("R23a", "%s.%s" % (p, name), ok,
+               "allowed interior mutability: " + ALLOWED_NONFREEZE.get((p, name), "") if ok else
+               "field `%s.%s: %s` introduces interior mutability into a database data structure: `&self` queries on "
+               "a shared database may now race" % (p, name, ty))
+    ctx.ob("R23a", "inventory", {(p, n) for p, n, t in leaves} >= set(ALLOWED_NONFREEZE),
+           "%d ADTs inspected; non-Freeze leaves: %s" % (len(seen), sorted({(p.split("::")[-1], n) for p, n, t in leaves})),
+           nontrivial=False)
+    ctx.floor("R23a", "database ADTs inspected for interior mutability", len(seen), 40)
+    unsafe = [(p, h["unsafe_blocks"]) for p, h in fa.hir.items() if h.get("unsafe_blocks") and
+              fa.body(p) is not None and fa.body(p).crate == "agdb" and "test_utilities" not in p]
+    ctx.ob("R23a", "no-unsafe-in-agdb", not unsafe, "crate agdb has no user-written unsafe block" if not unsafe else
+           "unsafe blocks in crate agdb: %s" % unsafe[:5])
+
+    cursor_rule(ctx)
 
     # ---- R23c
     n = 0
